@@ -122,6 +122,127 @@ fn glob_sweep(maxlen: usize) -> Value {
     json!({"patterns": patterns, "dont_care_patterns": dc, "evaluations": evals, "devs": devs})
 }
 
+/// The same comparison through the commands: one connection PSUBSCRIBEs to every pattern (all of length <= 3 over the
+/// 9-symbol alphabet and the token-level ones, don't-cares left out), every text is PUBLISHed as a channel name; the
+/// integer reply and the set of patterns named by the pmessage frames that arrive must be exactly the patterns the
+/// reference matches (a seeded "cheap reject" in PUBLISH's fan-out compared the literal prefix of the pattern, escapes
+/// included, before it called the matcher: the matcher alone was as good as ever).
+fn glob_through_publish(maxlen: usize) -> Value {
+    use super::c05::Harness;
+    use crate::resp::{self, R};
+    let alphabet: &[u8] = b"ab*?[]^-\\";
+    let mut patterns: Vec<Vec<u8>> = Vec::new();
+    for l in 1..=3usize.min(maxlen) {
+        let mut idx = vec![0usize; l];
+        loop {
+            let pat: Vec<u8> = idx.iter().map(|i| alphabet[*i]).collect();
+            if !glob_is_dc(&pat) {
+                patterns.push(pat);
+            }
+            let mut k = 0;
+            while k < l {
+                idx[k] += 1;
+                if idx[k] < alphabet.len() {
+                    break;
+                }
+                idx[k] = 0;
+                k += 1;
+            }
+            if k == l {
+                break;
+            }
+        }
+    }
+    for pat in crate::model::glob::token_patterns(2) {
+        if !glob_is_dc(&pat) {
+            patterns.push(pat);
+        }
+    }
+    patterns.sort();
+    patterns.dedup();
+    let mut texts: Vec<Vec<u8>> = Vec::new();
+    let texts_alpha: &[u8] = b"ab-]";
+    for l in 1..=3usize {
+        let mut idx = vec![0usize; l];
+        loop {
+            texts.push(idx.iter().map(|i| texts_alpha[*i]).collect());
+            let mut k = 0;
+            while k < l {
+                idx[k] += 1;
+                if idx[k] < texts_alpha.len() {
+                    break;
+                }
+                idx[k] = 0;
+                k += 1;
+            }
+            if k == l {
+                break;
+            }
+        }
+    }
+    texts.extend(crate::model::glob::token_texts());
+    // texts in which the escaped metacharacters occur literally
+    for t in ["*", "a*", "?b", "[a]", "a\\", "\\a", "a.b", "^a"] {
+        texts.push(t.as_bytes().to_vec());
+    }
+    texts.sort();
+    texts.dedup();
+    let mut devs: Vec<Value> = Vec::new();
+    let mut errors: Vec<String> = Vec::new();
+    let mut evals = 0u64;
+    let mut h = Harness::new(SrvOpts::default());
+    let mut run = || -> Result<(), String> {
+        h.ensure()?;
+        let mut sub = h.srv.as_ref().unwrap().connect().map_err(|e| format!("connect: {:?}", e))?;
+        for chunk in patterns.chunks(64) {
+            let mut a: Vec<Vec<u8>> = vec![b"PSUBSCRIBE".to_vec()];
+            a.extend(chunk.iter().cloned());
+            h.srv.as_ref().unwrap().send_all(&mut sub, &resp::cmd(&a)).map_err(|e| format!("psubscribe: {:?}", e))?;
+            let (acks, err) = h.collect(&mut sub, chunk.len(), 6);
+            if acks.len() != chunk.len() || err.is_some() {
+                return Err(format!("PSUBSCRIBE of {} patterns acknowledged {} ({:?})", chunk.len(), acks.len(), err));
+            }
+        }
+        for t in texts.iter() {
+            let want: std::collections::BTreeSet<Vec<u8>> = patterns.iter().filter(|p| glob_match(p, t)).cloned().collect();
+            let r = h.aux_call(&[b"PUBLISH".to_vec(), t.clone(), b"m".to_vec()])?;
+            let (frames, err) = h.collect(&mut sub, want.len().max(1), 4);
+            if let Some(e) = err {
+                return Err(format!("collecting pmessages: {}", e));
+            }
+            let mut got: std::collections::BTreeSet<Vec<u8>> = Default::default();
+            let mut malformed = false;
+            for f in frames.iter() {
+                match f {
+                    R::Arr(v) if v.len() == 4 && v[0] == R::Bulk(b"pmessage".to_vec()) && v[2] == R::Bulk(t.clone()) => {
+                        if let R::Bulk(p) = &v[1] {
+                            if !got.insert(p.clone()) {
+                                malformed = true; // the same subscription served twice
+                            }
+                        }
+                    }
+                    _ => malformed = true,
+                }
+            }
+            evals += patterns.len() as u64;
+            for p in want.symmetric_difference(&got) {
+                if devs.len() < 3000 {
+                    devs.push(json!({"pattern": String::from_utf8_lossy(p), "text": String::from_utf8_lossy(t), "expected": want.contains(p), "actual": got.contains(p), "through": "PSUBSCRIBE + PUBLISH"}));
+                }
+            }
+            if want == got && (malformed || r != R::Int(want.len() as i64)) && devs.len() < 3000 {
+                devs.push(json!({"pattern": "(all)", "text": String::from_utf8_lossy(t), "expected": true, "actual": false, "through": "PSUBSCRIBE + PUBLISH", "publish_reply": resp::show(&r), "deliveries": got.len(), "malformed_or_repeated_frames": malformed}));
+            }
+        }
+        sub.discard();
+        Ok(())
+    };
+    if let Err(e) = run() {
+        errors.push(e);
+    }
+    json!({"through_publish": {"patterns": patterns.len(), "texts": texts.len(), "evaluations": evals, "devs": devs, "errors": errors}})
+}
+
 fn glob_class(pat: &str, expected: bool) -> String {
     let mut f = Vec::new();
     if pat.contains('[') {
@@ -252,12 +373,30 @@ fn extra_worker(_tier: &str, task: &Value, _io: &mut WorkerIo) -> Option<Value> 
     if task.get("departing").is_some() || task.get("replay").map(|r| r["kind"] == "departing").unwrap_or(false) {
         return Some(departing_subscriber_cases());
     }
+    if let Some(l) = task.get("glob_publish") {
+        return Some(glob_through_publish(l.as_u64().unwrap_or(3) as usize));
+    }
     task.get("glob").map(|l| glob_sweep(l.as_u64().unwrap_or(3) as usize))
 }
 
 fn extra_parent(pool: &Pool, tier: &str, report: &mut RunReport) -> Value {
     let gl = if tier == "thorough" { 5 } else { 4 };
-    let out = pool.map(vec![json!({"glob": gl}), json!({"departing": true})], 0);
+    let out = pool.map(vec![json!({"glob": gl}), json!({"departing": true}), json!({"glob_publish": gl})], 0);
+    let mut through = json!({});
+    match &out[2] {
+        Outcome::Done(v) => {
+            let t = &v["through_publish"];
+            for e in t["errors"].as_array().cloned().unwrap_or_default() {
+                report.machinery_errors.push(format!("glob through PUBLISH: {}", e));
+            }
+            for d in t["devs"].as_array().cloned().unwrap_or_default() {
+                report.deviations.push(Deviation { property: "C14".into(), sig: format!("{}|through-PUBLISH", glob_class(d["pattern"].as_str().unwrap_or(""), d["expected"].as_bool().unwrap_or(false))), replay: json!({"kind": "glob-publish", "case": d}) });
+            }
+            println!("  c14-glob-through-publish: patterns={} texts={} evaluations={} deviations={}", t["patterns"], t["texts"], t["evaluations"], t["devs"].as_array().map(|a| a.len()).unwrap_or(0));
+            through = json!({"patterns_subscribed": t["patterns"], "channels_published": t["texts"], "evaluations": t["evaluations"]});
+        }
+        Outcome::Died { status, .. } => report.machinery_errors.push(format!("glob-through-publish worker died: {}", status)),
+    }
     let mut departing = json!({});
     match &out[1] {
         Outcome::Done(v) => {
@@ -277,7 +416,7 @@ fn extra_parent(pool: &Pool, tier: &str, report: &mut RunReport) -> Value {
             for d in v["devs"].as_array().cloned().unwrap_or_default() {
                 report.deviations.push(Deviation { property: "C14".into(), sig: glob_class(d["pattern"].as_str().unwrap_or(""), d["expected"].as_bool().unwrap_or(false)), replay: json!({"kind": "glob", "case": d}) });
             }
-            json!({"pubsub_glob_vs_reference": {"patterns": v["patterns"], "dont_care_patterns": v["dont_care_patterns"], "evaluations": v["evaluations"], "max_pattern_len": gl}, "departing_subscribers": departing})
+            json!({"pubsub_glob_vs_reference": {"patterns": v["patterns"], "dont_care_patterns": v["dont_care_patterns"], "evaluations": v["evaluations"], "max_pattern_len": gl}, "glob_through_psubscribe_and_publish": through, "departing_subscribers": departing})
         }
         Outcome::Died { status, .. } => {
             report.machinery_errors.push(format!("glob worker died: {}", status));
